@@ -4,6 +4,7 @@ package beacon
 // before the time of round r; partials for rounds more than one ahead of the receiver's clock are refused.
 
 import (
+	"os"
 	"fmt"
 	"sync"
 	"sync/atomic"
@@ -142,10 +143,62 @@ func c04Run(run *vfRun, c c04Case) {
 		adv.observeEmit(p, from.pos)
 		prevEmit(from, to, p, clk)
 	}
+	// a beacon a node AGGREGATES before the round's time on its own clock can only come from a threshold of other
+	// members' partials (their clocks may be ahead): the node's own share must not be part of it, since it does not
+	// release its own partial before that time
+	var omu sync.Mutex
+	others := map[[2]uint64]map[int]bool{} // (node, round) -> indices of other members whose valid partial was handed over
+	nt.onDeliver = func(to *vfbNode, from int, p *proto.PartialBeaconPacket, src string, seq int64) {
+		if src != "honest" || from == to.pos {
+			return
+		}
+		prev := p.GetPreviousSignature()
+		if !nt.chained() {
+			prev = nil
+		}
+		if !nt.verifyPartial(p.GetRound(), prev, p.GetPartialSig()) {
+			return
+		}
+		idx, err := sch.ThresholdScheme.IndexOf(p.GetPartialSig())
+		if err != nil || idx == to.index {
+			return
+		}
+		omu.Lock()
+		k := [2]uint64{uint64(to.pos), p.GetRound()}
+		if others[k] == nil {
+			others[k] = map[int]bool{}
+		}
+		others[k][idx] = true
+		omu.Unlock()
+	}
 	nt.onPut = func(n *vfbNode, b *common.Beacon, src string, seq int64) {
 		if b.Round > 0 {
 			adv.observePut(b)
 		}
+		if src != "agg" || b.Round == 0 {
+			return
+		}
+		now := n.clk.Now().Unix()
+		if tr := c04TimeOfRound(nt.genesis, c.PeriodS, b.Round); now < tr {
+			omu.Lock()
+			have := len(others[[2]uint64{uint64(n.pos), b.Round}])
+			omu.Unlock()
+			run.Count("beacons_aggregated_before_their_time_on_the_nodes_clock", 1)
+			if have < c.Thr {
+				run.Violation("C04/beacon-aggregated-before-its-time-with-the-nodes-own-share/"+c.Pattern,
+					fmt.Sprintf("node %d aggregated round %d at own clock %d, %d s before that round's time, holding valid partials of only %d other member(s) (threshold %d): its own share was used", n.pos, b.Round, now, tr-now, have, c.Thr), info)
+			}
+		}
+	}
+	if c.Pattern == "parked-tick" && c.Index%4 >= 2 && c.N-1 > c.Thr-1 {
+		// only threshold-1 of the others reach the slow node: together with its own share that is a threshold
+		nt.mu.Lock()
+		nt.deadLinks = map[[2]int]bool{}
+		for from := c.Thr; from < c.N; from++ {
+			nt.deadLinks[[2]int{from, 0}] = true
+		}
+		nt.mu.Unlock()
+		run.Count("cases_where_only_threshold_minus_one_others_reach_the_slow_node", 1)
 	}
 	// parked tick: hold node 0's tick handling until the chain has moved past its clock round (bounded real wait)
 	var parked int64
@@ -233,11 +286,41 @@ func c04Run(run *vfRun, c c04Case) {
 				nt.dropPct = 0
 				nt.mu.Unlock()
 				run.Count("network_wide_outages_with_one_slow_clock", 1)
-				// the catch-up, second by second
+				// the catch-up, second by second, the slow node's clock moving a moment after the others': its catch-up
+				// timer then fires when the partials the others' timers released have already reached it
+				slow := -1
+				for i, sk := range c.SkewS {
+					if sk < 0 {
+						slow = i
+					}
+				}
 				for k := 0; k < 8*c.PeriodS; k++ {
-					nt.Step(time.Second)
-					time.Sleep(2 * time.Millisecond)
-					nt.Settle()
+					// (in the first half of the catch-up the slow clock also RUNS slow: the others get two seconds for
+					// each of its seconds, so two rounds can reach it while one catch-up timer is pending)
+					reps := 1
+					if k < 4*c.PeriodS {
+						reps = 2
+					}
+					for rep := 0; rep < reps; rep++ {
+						for _, n := range nt.nodes {
+							if n.pos != slow {
+								n.clk.Advance(time.Second)
+							}
+						}
+						atomic.AddInt64(&nt.activity, 1)
+						time.Sleep(3 * time.Millisecond)
+						nt.Settle()
+					}
+					if slow >= 0 {
+						nt.nodes[slow].clk.Advance(time.Second)
+						atomic.AddInt64(&nt.activity, 1)
+						time.Sleep(3 * time.Millisecond)
+						nt.Settle()
+						if os.Getenv("VF_DEBUG") != "" {
+							sn := nt.nodes[slow]
+							run.Note(fmt.Sprintf("DEBUG k=%d slow n%d head=%d clockround=%d others-head=%d others-clockround=%d", k, slow, nt.Head(sn), nt.clockRound(sn), nt.Head(nt.nodes[(slow+1)%c.N]), nt.clockRound(nt.nodes[(slow+1)%c.N])))
+						}
+					}
 				}
 			} else {
 				nt.Step(period)
